@@ -71,16 +71,23 @@ Theorem C15_budget_counter : forall m,
 Proof. exact (fun m => conj (budget_run_bound m) (conj (budget_run_exact m) (fun n c => budget_run_exhausted m c n))). Qed.
 
 (* every step of the engine, whatever the action (deliveries with or without ack, crash cuts, recovery sweeps, cancel,
-   signals): unless it delivers a jump INTO stage i from another stage, stage i's count is unchanged or goes up by one
-   while it was below the maximum; the maximum never changes.  (_jump_count and _max_jumps are written by nothing but
-   JumpToStage: proved handler by handler.) *)
-Theorem C15_budget_step : forall orc s a i, ~ foreign_jump_into s i a -> budget_move s (step orc s a) i.
+   signals): unless it delivers a jump INTO stage i from another stage, the count of an EXISTING stage i is unchanged or
+   goes up by one while it was below the maximum; the maximum never changes.  (_jump_count and _max_jumps of an existing
+   row are written by nothing but JumpToStage: proved handler by handler.  A plan / completion commit may APPEND new
+   synthetic rows -- OAdd -- which is why the statement is about the rows that exist before the step: the budget fields
+   of the old rows are a prefix of the new ones, JumpP.same_rows / same_rows_prefix.) *)
+Theorem C15_budget_step : forall orc s a i,
+  i < length (w_stages s) -> ~ foreign_jump_into s i a -> budget_move s (step orc s a) i.
 Proof. exact step_budget. Qed.
+
+(* rows are only ever appended: an existing stage keeps its index *)
+Theorem C15_rows_only_grow : forall orc s a, length (w_stages s) <= length (w_stages (step orc s a)).
+Proof. exact step_length. Qed.
 
 (* hence along ANY run without such foreign jumps (self loops, cycles with one jumping stage, loops with side branches):
    at most max - count steps raise the count, and it never exceeds the maximum *)
 Theorem C15_budget_run_partial : forall orc i acts s,
-  no_foreign orc s i acts ->
+  i < length (w_stages s) -> no_foreign orc s i acts ->
   raises orc s i acts <= Z.to_nat (emax s i - cnt s i) /\
   (cnt s i <= cnt (run orc s acts) i)%Z /\ (cnt (run orc s acts) i <= Z.max (cnt s i) (emax s i))%Z /\
   emax (run orc s acts) i = emax s i.
@@ -191,9 +198,10 @@ Example C15_self_loop_default :
   let s0 := step orc (loop2 None) Submit in
   let acts := fifo_acts orc 200 s0 in
   let s := run orc s0 acts in
+  0 < length (w_stages s0) /\
   no_foreignb orc s0 0 acts = true /\ raises orc s0 0 acts = 10 /\ emax s0 0 = default_max_jumps /\
   cnt s 0 = 10%Z /\ count_execs s 0 0 = 11 /\ statuses s = (TERMINAL, [TERMINAL; NOT_STARTED]) /\ w_queue s = [].
-Proof. vm_compute. repeat split. Qed.
+Proof. vm_compute. split; [lia|]. repeat split. Qed.
 
 Example C15_self_loop_limits :
   let orc := always_jump 0 in
@@ -240,6 +248,7 @@ Print Assumptions C15_budget_exhausted.
 Print Assumptions C15_budget_counter.
 Print Assumptions C15_budget_step.
 Print Assumptions C15_budget_run_partial.
+Print Assumptions C15_rows_only_grow.
 Print Assumptions C15_accepted_jump_raises.
 Print Assumptions C15_exhausted_jump_fails_source.
 Print Assumptions C15_resettable_spec.
